@@ -82,7 +82,7 @@ func (c *c09) Meta() engine.Meta {
 		Technique:        "bounded-exhaustive enumeration of an input grammar against the real application at several states; oracle = no panic + liveness probe",
 		Rule: "inputs: (a) every byte string of length <= 2; (b) for a valid signed encoding of each of 10 base transactions (all 8 types, contract deploy and call, transfer to a contract): every prefix, every single-bit flip, every byte replaced by 00/7f/80/ff; (c) valid envelopes, RE-SIGNED by the sender, with every value of a per-field hostile menu (unknown / empty / 19 / 21 / 33 / 64-byte addresses, amounts 0 / 2^255 / 2^256-1, gas 0 / 2^63 / 2^64-1, prices, nonce 2^64-1, type 0 / 9 / -1 / 2^31-1, nil payload, payload of another type, 0 / 31 / 33-byte hashes, heights 0 / -1 / 2^63-1 / overflowing sums, option documents that are not JSON / deeply nested / wrong types / negative / huge numbers, empty option list, choice -1 / 2^31-1, 10 kB strings and code) — all single fields and all ordered pairs (thorough also at the fresh state, plus every pair of byte positions of each valid encoding replaced by 00/ff); (d) Query: 12 paths x 11 data shapes x 8 heights, plus vm_call with well-formed (from,to) over 3 senders x 14 targets (creation, EOA, unknown, two contracts, the nine precompiles) x 5 payloads x 7 heights. " +
 			"Delivered through CheckTx and, inside a block, through DeliverTx, at a fresh chain (after 2 blocks) and after 4 blocks of the dense history. vm_call runs with the RPC environment Tendermint installs in production (stub block store). " +
-			"(e) delayed consequences: 26 governance option documents (negative, zero, maximal and overflowing values of every parameter, empty, unknown fields) are proposed, voted through and applied, followed by 6 busy blocks (staking, unstaking, evidence, missed signatures, withdrawals, a further proposal). Oracle: every call returns (a recovered panic or a dead worker process is a violation); after each batch the open block ends and commits, and a well-formed transfer in a following block succeeds. " +
+			"(e) delayed consequences: 26 governance option documents (negative, zero, maximal and overflowing values of every parameter, empty, unknown fields) are proposed, voted through and applied, followed by 6 busy blocks (staking, unstaking, evidence, missed signatures, withdrawals, a further proposal). (f) every single deviation of the four shared history families (incl. evidence, missed signatures, proposer-less blocks): every ABCI call must return. Oracle: every call returns (a recovered panic or a dead worker process is a violation); after each batch the open block ends and commits, and a well-formed transfer in a following block succeeds. " +
 			"evaluations = input shards, counters.inputs = individual inputs; distinct_nontrivial = shards in which at least one input was ACCEPTED (code 0) and one rejected.",
 		Assumptions: []string{
 			"the claim is the enumerated grammar, not all byte strings",
@@ -399,6 +399,16 @@ func (c *c09) Prepare(tier string, seed int64) error {
 	for o := range c09DelayedOptions() {
 		c.cases = append(c.cases, c09Case{State: "fresh", Chan: "deliver", Gen: "delayed", Tmpl: o, Shards: 1, Only: -1, Lv: 1})
 	}
+	// histories: every single deviation of the shared history families; ANY panicking ABCI call is a violation
+	for fi, f := range sharedFamilies() {
+		h := f.Base()
+		ss := historySlotsN(h, f.Menu, f.WithEnv, 1, true)
+		sets, _ := enumDevs(ss.sizes(), 1, 2, nil)
+		const per = 40
+		for sh := 0; sh*per < len(sets); sh++ {
+			c.cases = append(c.cases, c09Case{State: fmt.Sprint(fi), Chan: "deliver", Gen: "histories", Shard: sh, Shards: per, Only: -1, Lv: 1})
+		}
+	}
 	states2 := []string{"dense4"}
 	if tier == "thorough" {
 		states2 = []string{"dense4", "fresh"}
@@ -454,6 +464,9 @@ func (c *c09) RunDesc(desc json.RawMessage) engine.Result {
 	_ = json.Unmarshal(desc, &cs)
 	if cs.Gen == "delayed" {
 		return c.runDelayed(cs, desc)
+	}
+	if cs.Gen == "histories" {
+		return c.runHistories(cs, desc)
 	}
 	res := engine.Result{}
 	r, err := c.prepareChain(cs.State)
@@ -704,6 +717,69 @@ func (c *c09) runDelayed(cs c09Case, desc json.RawMessage) engine.Result {
 	res.Nontrivial = accepted
 	res.Outcome = "delayed"
 	res.States = append(res.States, shortHash("delayed/"+opt))
+	return res
+}
+
+// runHistories: a shard of the single-deviation neighbourhood of a shared history family; every ABCI call of every
+// history must return.
+func (c *c09) runHistories(cs c09Case, desc json.RawMessage) engine.Result {
+	res := engine.Result{}
+	var fi int
+	fmt.Sscan(cs.State, &fi)
+	f := sharedFamilies()[fi]
+	base := f.Base()
+	ss := historySlotsN(base, f.Menu, f.WithEnv, 1, true)
+	sets, _ := enumDevs(ss.sizes(), 1, 2, nil)
+	lo, hi := cs.Shard*cs.Shards, (cs.Shard+1)*cs.Shards
+	if hi > len(sets) {
+		hi = len(sets)
+	}
+	for i := lo; i < hi; i++ {
+		if cs.Only >= 0 && i != cs.Only {
+			continue
+		}
+		h := ss.apply(base, sets[i])
+		r := sim.Run(tmpRoot(), h, &sim.Hooks{NoStates: true})
+		res.Transitions += len(r.Chain.Log)
+		res.Count("inputs", len(r.Chain.Log))
+		for _, l := range r.Chain.Log {
+			if l.Code == 0 {
+				res.Count("inputs_accepted", 1)
+			} else {
+				res.Count("inputs_rejected", 1)
+			}
+			if l.Panic != "" {
+				one := cs
+				one.Only = i
+				site := l.Kind
+				for _, ln := range strings.Split(l.Log, "\n") {
+					ln = strings.TrimSpace(ln)
+					if strings.HasPrefix(ln, "github.com/rigochain/rigo-go/") {
+						if k := strings.LastIndexByte(ln, '('); k > 0 {
+							ln = ln[:k]
+						}
+						site = l.Kind + ": " + strings.TrimPrefix(ln, "github.com/rigochain/rigo-go/")
+						break
+					}
+				}
+				dup := false
+				for _, o := range res.Violations {
+					if o.Site == site {
+						dup = true
+					}
+				}
+				if !dup {
+					res.Violations = append(res.Violations, engine.Violation{Property: "C09", Kind: "panic", Site: site,
+						Detail: fmt.Sprintf("%s of block %d panicked: %s\n family %s, deviations %v\n%s", l.Kind, l.H, l.Panic, f.Name, ss.describe(sets[i]), l.Log), Case: sim.MustJSON(one)})
+				}
+				break
+			}
+		}
+		r.Cleanup()
+	}
+	res.Nontrivial = true
+	res.Outcome = "histories"
+	res.States = append(res.States, shortHash(fmt.Sprintf("hist/%d/%d", fi, cs.Shard)))
 	return res
 }
 
